@@ -497,7 +497,7 @@ impl<B: Backend> Runner<B> {
         } else {
             s.commit().await;
         }
-        if !any_change {
+        if !any_change && self.model.epoch > 1 {
             self.out.labels.insert("noop_session");
         } else if self.restarted_after_recompute {
             self.post_restart_edit = true;
@@ -794,11 +794,12 @@ impl<B: Backend> Runner<B> {
                 continue;
             }
             // C03: the invocation must be justified
-            if self.check_c03 {
+            {
                 if let Some(prev) = last_completed.get(&inv.node) {
-                    let justified = prev
-                        .iter()
-                        .any(|(callee, seen)| oracle.node(*callee) != *seen);
+                    let justified = !self.check_c03
+                        || prev
+                            .iter()
+                            .any(|(callee, seen)| oracle.node(*callee) != *seen);
                     if !justified {
                         viol.push((
                             "C03",
@@ -920,9 +921,11 @@ pub async fn run_case<B: Backend>(
     steps: &[Step],
     hasher_seed: u64,
     check_c03: bool,
+    defuse_kf1: bool,
 ) -> (Outcome, B) {
     let mut r = Runner::new(backend, prog, hasher_seed);
     r.check_c03 = check_c03;
+    r.defuse_kf1 = defuse_kf1;
     r.open().await;
     for st in steps {
         r.step(st).await;
